@@ -26,6 +26,8 @@ type LockingOpts struct {
 	MaxVals        int64
 	NVals          int
 	Mode           string // "" | "burst" (many unlocks maturing together)
+	RelayerPeriod  int64  // relayer electing period in ticks (0: no election inside a history)
+	RelayerTimeout int64  // accept-proposer timeout in ticks
 }
 
 func tokenDenom(id int) string { return lockingtypes.TokenDenom(project.TokenAddrs[id-1]) }
@@ -47,7 +49,11 @@ func NewLockingChainKey(seed int64, o LockingOpts, r *rand.Rand) (*sim.Chain, *s
 	btc := sim.NewBtcKey(seed, 0, false)
 	bg := bitcoinDefault()
 	bg.Pubkey = btc.Pub
-	rg := sim.DefaultRelayer(kr, c.Genesis, 0, []int{1}, 100000, 100000)
+	period, timeout := int64(100000), int64(100000)
+	if o.RelayerPeriod > 0 {
+		period, timeout = o.RelayerPeriod, o.RelayerTimeout
+	}
+	rg := sim.DefaultRelayer(kr, c.Genesis, 0, []int{1}, period, timeout)
 	rg.Pubkeys = append(rg.Pubkeys, btc.Pub)
 	w1 := uint64(1 + r.Intn(2))
 	th1 := int64(r.Intn(3))
